@@ -20,17 +20,27 @@ from hypothesis import strategies as st
 from vq import core
 from vq.gen import c10_build as B
 
-# known-finding keys (see the final report of the build): the generator avoids exactly these shapes
-# while the finding is open; `check` itself always judges the literal statement.
-KEY_PP = "fov-mask-pure-phase-amplitude"  # pure_phase + apply_fov_mask + mask < 1  =>  |o| = mask^2
-KEY_RE = "fov-mask-reapply-amplitude"  # apply_fov_mask + mask value in (0,1): C(C(x)) rescales again
+# Known-finding keys: while a finding with that key is open the generator avoids exactly the recorded
+# shape (counted with ctx.exclude); `check` itself always judges the literal statement.
+#   KEY_PP  pure_phase + apply_fov_mask + some mask value < 1  =>  |o| = mask^2 != 1.  Repaired by
+#           fix-pure-phase-fov-mask (replays/C10/pure-phase-*.json); the key only matters if that fix
+#           is declined and the defect is recorded as a finding instead.
+#   KEY_RE  complex + apply_fov_mask + some mask value strictly inside (0,1) + re-application:
+#           every application multiplies the amplitude by mask^2 again.
+KEY_PP = "fov-mask-pure-phase-amplitude"
+KEY_RE = "fov-mask-reapply-amplitude"
 
-# ---- tolerances (float32 / complex64 code under test; measured on the pinned tree, see meta) ------
-EPS_AMP = 1e-5  # |o| <= 1 + EPS_AMP, ||o| - 1| <= EPS_AMP      (measured max 2.4e-7)
-EPS_IDEM = 1e-5  # | |C(C(x))| - |C(x)| | <= EPS_IDEM (amplitudes <= 1)  (measured max 3.0e-7)
-RT_INT = 1e-5  # relative tolerance on mode intensities / total intensity / weights (measured 1.1e-6)
-ORTH_FLOOR = 1e-5  # relative Gram off-diagonal floor
-ORTH_K = 10.0  # ... + ORTH_K * eps32 * cond(C): classical Gram-Schmidt loses eps*cond(A)^2 = eps*cond(C)
+# ---- tolerances (float32 / complex64 code under test) --------------------------------------------
+# "measured" = largest clean-tree deviation over 2 x 52 000 thorough-scale cases (seed 1, workers 0/1)
+EPS_AMP = 1e-5  # |o| <= 1 + EPS_AMP, ||o| - 1| <= EPS_AMP               (measured 9.9e-8 / 4.3e-8)
+EPS_IDEM = 1e-5  # | |C(C(x))| - |C(x)| | <= EPS_IDEM, amplitudes <= 1    (measured 1.3e-7)
+RT_INT = 1e-5  # relative: mode intensities / total intensity / weights   (measured 4.5e-7 / 5.1e-7 / 4.2e-7)
+# relative Gram off-diagonal <= ORTH_FLOOR + ORTH_K * eps32 * cond(C): classical Gram-Schmidt loses
+# orthogonality like eps * cond(A)^2 = eps * cond(C), C the prescribed correlation matrix of the input
+# modes.  Measured <= 0.55 * eps32 * cond(C) for every structure (6.6e-8 at cond 1, 2.3e-6 at five
+# modes with uniform correlation 0.99), so K = 10 leaves >= 18x; the floor covers cond(C) = 1.
+ORTH_FLOOR = 1e-5
+ORTH_K = 10.0
 EPS32 = float(np.finfo(np.float32).eps)
 
 OBJ_DEFAULTS = {
@@ -194,6 +204,7 @@ def ortho_cases(draw):
     case = draw(_stack())
     case["kind"] = "ortho"
     case["route"] = draw(st.sampled_from(["probe", "probe", "direct", "setter"]))
+    case["as"] = draw(st.sampled_from(["numpy", "torch"]))
     return case
 
 
@@ -241,6 +252,11 @@ def init_cases(draw):
         mi = 10.0 ** draw(st.floats(-3, 6, allow_nan=False))
     case["mean_intensity"] = mi
     case["rng"] = draw(st.integers(0, 10**6))
+    case["as"] = draw(st.sampled_from(["numpy", "torch"]))
+    # a second preprocess re-runs set_initial_probe on the already scaled probe, possibly with
+    # another measured intensity: the last call decides
+    if draw(st.integers(0, 3)) == 0:
+        case["then_mean_intensity"] = 10.0 ** draw(st.floats(-3, 6, allow_nan=False))
     return case
 
 
@@ -454,7 +470,7 @@ def _check_ortho(ctx, case):
             pm.probe = P
             out = pm.probe
         else:
-            pm = ProbePixelated.from_array(P.copy(), rng=0)
+            pm = ProbePixelated.from_array(torch.tensor(P.copy()) if case.get("as") == "torch" else P.copy(), rng=0)
             if case["route"] == "probe":
                 out = pm.probe
             else:
@@ -469,6 +485,7 @@ def _fft_int(modes):
 
 
 def _check_init(ctx, case):
+    torch = _torch()
     from quantem.diffractive_imaging.probe_models import ProbePixelated
 
     M, h, w = case["M"], case["h"], case["w"]
@@ -495,8 +512,13 @@ def _check_init(ctx, case):
             rs = 0.05
             P = B.probe_stack(case).astype(np.complex64)
             arr = P[0] if src == "array2d" else P
+            if case.get("as") == "torch":
+                arr = torch.tensor(arr.copy())
             pm = ProbePixelated.from_array(arr, initial_probe_weights=wa, rng=case["rng"])
         pm.set_initial_probe((h, w), np.array([rs, rs]), mi)
+        if case.get("then_mean_intensity") is not None:
+            mi = float(case["then_mean_intensity"])
+            pm.set_initial_probe((h, w), np.array([rs, rs]), mi)
         ip = pm.initial_probe.detach().numpy().astype(np.complex128)
         live = pm._probe.detach().numpy().astype(np.complex128)
         pr = None
